@@ -60,11 +60,66 @@ def defuse_obligation(prop, touched):
               'the anchored operations must not raise NameError/UnboundLocalError on any path: every local is assigned on all paths before it is read (must-assigned forward analysis; loop bodies may run zero times)', body)
 
 
-def exits_obligation(prop):
+def call_closure(repo, keys):
+    """functions reachable from the given (mod, cls, name) keys through calls resolved by imports / self / super / class names"""
+    seen, todo = set(), []
+    for k in keys:
+        node = repo.funcs.get(k)
+        if node is not None and k not in seen:
+            seen.add(k)
+            todo.append(core.Fn(repo, k[0], k[1], k[2], node))
+    while todo:
+        f = todo.pop()
+        gs = [g for _, g in repo.callees(f, by_name=False)]
+        # functions / classes handed on as values (sorted(key=Cmp), reduce(f, ...)) are referenced too
+        for n in ast.walk(f.node):
+            if isinstance(n, ast.Name) and isinstance(n.ctx, ast.Load):
+                r = repo.resolve_name(f.mod, n.id)
+                if isinstance(r, core.Fn):
+                    gs.append(r)
+                elif isinstance(r, tuple) and r[0] == 'class':
+                    for (m2, c2, n2), node2 in repo.funcs.items():
+                        if c2 == r[1]:
+                            gs.append(core.Fn(repo, m2, c2, n2, node2))
+        for g in gs:
+            k = (g.mod, g.cls, g.name)
+            if g.outer is None and k not in seen and k in repo.funcs:
+                seen.add(k)
+                todo.append(g)
+    return seen
+
+
+def shared_obligations(prop, repo, touched, own_ids):
+    """obligations of OTHER properties anchored on functions that this property's anchored code calls (directly or transitively): the
+    property's functions are only as right as the helpers they delegate to, so a defect in cmp / as_list / getargs / _df_recolumn ... is
+    reported under every property that reaches it. sa/anchors.json (tools/mkanchors.py) maps obligation -> functions it looks at."""
+    p = os.path.join(VERIF, 'sa', 'anchors.json')
+    if not os.path.exists(p):
+        return []
+    anchors = json.load(open(p))
+    reach = {'%s:%s%s' % (k[0], (k[1] + '.') if k[1] else '', k[2]) for k in call_closure(repo, touched)}
+    out = []
+    aliases = set()
+    for i in range(1, 21):
+        q = 'C%02d' % i
+        if q == prop or not os.path.exists(os.path.join(VERIF, 'sa', 'rules', q + '.py')):
+            continue
+        for ob in load_rules(q):
+            a = anchors.get(ob.oid)
+            if a and set(a) <= reach and ob.func.__code__.co_code not in aliases:
+                sh = Ob(ob.oid, ob.rule + ' [shared]', ob.anchor, 'shared from %s because %s reaches %s through its calls: ' % (q, prop, ', '.join(a[:3])) + ob.why, ob.func, ob.axioms)
+                sh.oid = '%s~%s' % (prop, ob.oid)
+                sh.base_oid = ob.oid
+                sh.prop = q
+                out.append(sh)
+    return out
+
+
+def exits_obligation(prop, closure=()):
     from sa.rules import exits
     return Ob(prop + '.X', 'EXITS (closed set of exits vs reference snapshot)', ', '.join(exits.DISPATCHERS[prop])[:160],
               'the functions that decide this property by case analysis return only expressions of the kinds confirmed on the reference tree (name-blind, after normalisation); a new exit - typically a fast path in front of the real computation - is covered by none of the other obligations',
-              lambda ctx: exits.check_exits(ctx, prop))
+              lambda ctx: exits.check_exits(ctx, prop, closure))
 
 
 def check(prop, tier='quick', repo=None, only=None, quiet=False, write=True):
@@ -87,8 +142,13 @@ def check(prop, tier='quick', repo=None, only=None, quiet=False, write=True):
         if only and ob.oid not in only:
             continue
         results.append(run_obligation(ob, repo, tier, known))
+    own_touched = list(repo.touched)
+    if not only:
+        for ob in shared_obligations(prop, repo, own_touched, {o.oid for o in obs}):
+            results.append(run_obligation(ob, repo, tier, known))
+    repo.touched = own_touched
     if not only or (prop + '.X') in only:
-        results.append(run_obligation(exits_obligation(prop), repo, tier, known))
+        results.append(run_obligation(exits_obligation(prop, sorted(call_closure(repo, own_touched), key=str)), repo, tier, known))
     if not only or (prop + '.U') in only:
         results.append(run_obligation(defuse_obligation(prop, list(repo.touched)), repo, tier, known))
     st = repo.stats()
